@@ -293,7 +293,30 @@ class PTable(EngineBase):
             return {"op": "is_running", "h": rng.randrange(64)}
         raise ValueError(prop)
 
+    def gen_deep_plan(self, rng):
+        """C05: "any number of processes" - one chain of 1000-1400."""
+        n = rng.randrange(1020, 1400)
+        lo = 2
+        procs = [{"pid": lo + i, "ppid": (lo + i - 1) if i else 1,
+                  "comm": "c", "starttime": 300100 + i // 3}
+                 for i in range(n)]
+        world = {"procs": procs, "files": {}, "pool": list(range(lo, lo + n)),
+                 "pid_lo": lo, "pid_hi": lo + n - 1, "root": True,
+                 "listdir_order": rng.choice(["sorted", "reversed", "o7"]),
+                 "mono0": 50000.0, "deep": True}
+        ops = [{"op": "new", "slot": 0},
+               {"op": "new", "slot": rng.randrange(n // 2, n)},
+               {"op": "children", "h": 0, "rec": True},
+               {"op": "children", "h": 0, "rec": False},
+               {"op": "parents", "h": 1},
+               {"op": "children", "h": 1, "rec": True}]
+        for j, op in enumerate(ops):
+            op["id"] = j
+        return {"prop": "C05", "world": world, "ops": ops, "inside": []}
+
     def gen_plan(self, rng, prop, tier):
+        if prop == "C05" and rng.random() < 0.004:
+            return self.gen_deep_plan(rng)
         world = self.gen_world(rng, prop)
         nops = rng.randrange(8, 40 if tier == "quick" else 80)
         ops = []
@@ -333,13 +356,24 @@ class PTable(EngineBase):
             live = [p["pid"] for p in world["procs"] if p["pid"] > 1]
             if live:
                 x = rng.choice(live)
-                seq = [{"op": "iter", "consume": None},
-                       {"op": "ev", "ev": self.new_proc_ev(
-                           rng, x, world["pool"], "reuse")}]
-                opened = rng.random() < 0.7
-                if opened:
-                    seq.append({"op": "open_iter",
-                                "consume": rng.choice([1, 2])})
+                if rng.random() < 0.3:
+                    # cold variant: the PID is new to a pass that is still in
+                    # flight when it is recycled and found out
+                    x = min(live)
+                    seq = [{"op": "cache_clear"}] if rng.random() < 0.5 \
+                        else []
+                    seq += [{"op": "open_iter", "consume": rng.choice([2, 3])},
+                            {"op": "ev", "ev": self.new_proc_ev(
+                                rng, x, world["pool"], "reuse")}]
+                    opened = True
+                else:
+                    seq = [{"op": "iter", "consume": None},
+                           {"op": "ev", "ev": self.new_proc_ev(
+                               rng, x, world["pool"], "reuse")}]
+                    opened = rng.random() < 0.7
+                    if opened:
+                        seq.append({"op": "open_iter",
+                                    "consume": rng.choice([1, 2])})
                 seq.append({"op": "is_running_y", "i": 0, "pid": x})
                 if rng.random() < 0.3:
                     seq.append({"op": "iter", "consume": None})
@@ -397,7 +431,7 @@ class PTable(EngineBase):
         world = plan["world"]
         k = self.make_kernel(W.boot, dict(
             {kk: vv for kk, vv in world.items() if kk not in (
-                "pool", "overlap", "bushy_top")},
+                "pool", "overlap", "bushy_top", "deep")},
             max_acc=30000))
         k.keep_snaps = True
         self.install(k)
@@ -447,11 +481,38 @@ class PTable(EngineBase):
             acc0, eff0 = len(k.acclog), len(k.effects)
             k.begin_op(idx)
             try:
-                out = ("value", self.run_op(psutil, k, st, op, pool, idx))
+                if world.get("deep"):
+                    # a thread of its own: the interpreter's recursion budget
+                    # then does not depend on how deep the harness is (zygote
+                    # fork vs fresh replay interpreter)
+                    import threading as _th
+                    box = {}
+
+                    def _run():
+                        try:
+                            box["v"] = self.run_op(psutil, k, st, op, pool,
+                                                   idx)
+                        except BaseException as e_:  # noqa: BLE001
+                            box["e"] = e_
+
+                    t_ = _th.Thread(target=_run)
+                    t_.start()
+                    t_.join()
+                    if "e" in box:
+                        raise box["e"]
+                    out = ("value", box["v"])
+                else:
+                    out = ("value", self.run_op(psutil, k, st, op, pool, idx))
             except BaseException as e:  # noqa: BLE001
-                if is_harness_exc(e):
+                if isinstance(e, RecursionError) and world.get("deep") and \
+                        kind in ("children", "parents"):
+                    # the oracle and the kernel model are iterative; on a
+                    # deep chain the recursion is psutil's
+                    out = ("exc", e)
+                elif is_harness_exc(e):
                     raise
-                out = ("exc", e)
+                else:
+                    out = ("exc", e)
             k.end_op()
             # inside events that never fired are dropped
             for key in [kk for kk in k.pending_p if kk[1] == idx]:
